@@ -242,6 +242,13 @@ func init() {
 				C, P := cp[0], cp[1]
 				cases = append(cases, c04Case{Type: "int8", C: C, P: P, S: 0, L: P - 3, N: 3*C + 4, Sparse: true})
 			}
+			// every channel count 71..1030 on short buffers of 3 and 7 frames (the per-channel length after
+			// every call), one type
+			for C := 71; C <= 1030; C++ {
+				for _, P := range []int{3, 7} {
+					cases = append(cases, c04Case{Type: "int8", C: C, P: P, S: 0, L: 0, Direct: true, N: C*P + 2, Sparse: true})
+				}
+			}
 			for _, t := range valTypes() { // special values, by bit pattern
 				for C := 1; C <= 3; C++ {
 					for sh := 0; sh < len(valSpecials(t)); sh++ {
